@@ -28,20 +28,14 @@ Print Assumptions c19_root_total.
 Theorem c19_root_total_wellformed : forall client_ok tool_known tool_creates attr_ok ownership_ok docs,
   Forall wf_node docs ->
   load true client_ok tool_known tool_creates attr_ok ownership_ok docs <> LoadCrash.
-Proof.
-  intros client_ok tool_known tool_creates attr_ok ownership_ok docs H.
-  apply (load_no_crash true). revert H. apply Forall_impl. exact (wf_tree_ok true).
-Qed.
+Proof. exact (load_no_crash_wellformed true). Qed.
 Print Assumptions c19_root_total_wellformed.
 
 (* the code before c91b855 was safe on well-formed documents only ... *)
 Theorem c19_root_total_unrepaired_wellformed : forall client_ok tool_known tool_creates attr_ok ownership_ok docs,
   Forall wf_node docs ->
   load false client_ok tool_known tool_creates attr_ok ownership_ok docs <> LoadCrash.
-Proof.
-  intros client_ok tool_known tool_creates attr_ok ownership_ok docs H.
-  apply (load_no_crash false). revert H. apply Forall_impl. exact (wf_tree_ok false).
-Qed.
+Proof. exact (load_no_crash_wellformed false). Qed.
 Print Assumptions c19_root_total_unrepaired_wellformed.
 
 (* ... and dereferenced the null value of `client: ?x` (a well-formed YAML text that llvm's scanner rejects); the
@@ -79,10 +73,7 @@ Example c19_root_instance :
   wf_node valid_doc
   /\ summary (load_parse_cmd true [valid_doc]) = Some ([], (2%nat, 2%nat, 3%nat, 2%nat), [116])
   /\ load true yes3 yes1 yes2 yes3 yes1 [valid_doc] <> LoadCrash.
-Proof.
-  split; [exact valid_doc_wf|]. split; [exact valid_doc_loads|].
-  apply c19_root_total_wellformed. constructor; [exact valid_doc_wf | constructor].
-Qed.
+Proof. exact root_instance. Qed.
 
 (* ---------------------------------------------------------------- Part 2 *)
 (* re-exports from Parse/MakeDepsProofs, Parse/DepInfoProofs, Parse/NinjaLexProofs *)
